@@ -1419,6 +1419,14 @@ func (u *usegWorld) exec(op *ReuseOp, out *kernel.Outcome, trace *uint64) *kerne
 		case op.E == 3 && len(u.text) > 0 && len(u.text) < 200:
 			// typing: the previous paragraph plus a few runes
 			text = append(copyRunes(u.text), text...)
+		case op.E == 5 && len(u.text) > 1:
+			// backspace: the previous paragraph without its last few runes
+			k := 1 + op.Iter%3
+			if k >= len(u.text) {
+				k = len(u.text) - 1
+			}
+			text = copyRunes(u.text[:len(u.text)-k])
+			out.Count("probe.useg_previous_paragraph_cut_short", 1)
 		}
 		if op.E == 4 && len(u.docs) > 0 {
 			// the caller submits, again, a paragraph it submitted earlier: the very same slice
